@@ -267,9 +267,13 @@ fn explore(ctx: &mut Ctx) {
                 let mut buf = [0u8; 4];
                 eval(ctx, h.as_bytes(), c.encode_utf8(&mut buf).as_bytes());
             }
+            // two-char patterns over the same set (self-overlap next to a partner char)
+            for n in strs.iter().filter(|n| n.chars().count() == 2) {
+                eval(ctx, h.as_bytes(), n.as_bytes());
+            }
         }
     }
-    ctx.exhaustive_part("one-byte partners: strings of <= 3-4 chars over {c, one partner per byte position of c's encoding, 'a'} for c in {é, 个, 😀} x every member as pattern (char, str and byte kinds)");
+    ctx.exhaustive_part("one-byte partners: strings of <= 3-4 chars over {c, one partner per byte position of c's encoding, 'a'} for c in {é, 个, 😀} x every member and every 2-char string over the set as pattern (char, str and byte kinds)");
     // lead-byte sweep: the char itself (char and str kinds), its successor, its first byte and its tail bytes as patterns
     for s in gen::lead_byte_strings() {
         let hb = s.as_bytes();
